@@ -15,6 +15,11 @@
 // along with this program.  If not,ls see <http://www.gnu.org/licenses/>.
 use crate::revision::Revision;
 use impl_tools::autoimpl;
+#[cfg(melda_verif)]
+use crate::verif_hooks::{HashMap, HashSet};
+#[cfg(melda_verif)]
+use std::collections::BTreeSet;
+#[cfg(not(melda_verif))]
 use std::collections::{BTreeSet, HashMap, HashSet};
 
 #[autoimpl(PartialEq, Eq, PartialOrd, Ord ignore self.staging)]
